@@ -38,12 +38,19 @@ trait Job {
 
 /// a destination that accepts the bytes in short pieces (3, then 2, then 5, then 1 bytes per `write` call, cyclically; its
 /// `write_vectored` is the default: the first non-empty slice), as pipes and sockets do
+/// with `eintr` set every third call first reports the transient `Interrupted` (a signal arrived: `Write::write_all` retries, nothing is lost)
 struct Pieces {
     out: Vec<u8>,
     k: usize,
+    eintr: bool,
+    calls: usize,
 }
 impl io::Write for Pieces {
     fn write(&mut self, buf: &[u8]) -> io::Result<usize> {
+        self.calls += 1;
+        if self.eintr && self.calls % 3 == 1 {
+            return Err(io::ErrorKind::Interrupted.into());
+        }
         let step = [3usize, 2, 5, 1][self.k % 4];
         self.k += 1;
         let n = buf.len().min(step);
@@ -61,14 +68,16 @@ fn with_dest(cap: u128, pre: &[u8], job: &impl Job) -> Args {
         let mut v = pre.to_vec();
         let res = job.run(&mut v);
         // the same call on a destination that takes the bytes in short pieces: same bytes, same count
-        let mut p = Pieces { out: Vec::new(), k: 0 };
-        let res2 = job.run(&mut p);
-        match (&res, &res2) {
-            (Ok(a), Ok(b)) => {
-                assert_eq!(a, b, "the returned count depends on how the destination splits the writes");
-                assert_eq!(&p.out[..], &v[pre.len()..], "the bytes written depend on how the destination splits the writes");
-            },
-            _ => panic!("a destination that never fails made the writer fail"),
+        for eintr in [false, true] {
+            let mut p = Pieces { out: Vec::new(), k: 0, eintr, calls: 0 };
+            let res2 = job.run(&mut p);
+            match (&res, &res2) {
+                (Ok(a), Ok(b)) => {
+                    assert_eq!(a, b, "the returned count depends on how the destination splits the writes");
+                    assert_eq!(&p.out[..], &v[pre.len()..], "the bytes written depend on how the destination splits the writes");
+                },
+                _ => panic!("a destination that never runs out of space (short writes, transient Interrupted) made the writer fail"),
+            }
         }
         (res, v)
     } else {
